@@ -158,6 +158,10 @@ func RunUnit(ld *Loaded, harness string, cfg Config, workDir string, seed int, p
 			}
 		}
 	}()
+	liveSolver = "z3"
+	if cfg.Live != "" {
+		liveSolver = cfg.Live
+	}
 	solver, err := NewSolver(workDir, seed)
 	if err != nil {
 		res.Error = err.Error()
